@@ -227,10 +227,15 @@ fn stress_a(ctx: &mut Ctx, st: &mut AStats) {
 	let n_writes = match ctx.engine.as_str() {
 		"miri" => 40u64,
 		"tsan" => 200_000,
-		_ => ctx.t(400_000u64, 20_000_000u64),
+		// many histories of moderate length rather than a few enormous ones: a round of 10^6 writes keeps a shard below
+		// ~1 GB (twenty times that made sixteen shards exceed the machine's memory)
+		_ => ctx.t(400_000u64, 1_000_000u64),
 	};
-	let rounds = if ctx.engine == "miri" { 1 } else { 4 };
+	let rounds = if ctx.engine == "miri" { 1 } else if ctx.engine == "tsan" { 4 } else { ctx.t(4u64, 60u64) };
 	for round in 0..rounds {
+		if round >= 4 && !ctx.time_left(0.6) {
+			break;
+		}
 		let seed = ctx.seed ^ (ctx.shard << 8) ^ round;
 		let (mut w, mut r): (CommandWriter<Payload>, CommandReader<Payload>) = command_writer_and_reader();
 		let clock = Arc::new(AtomicU64::new(0));
@@ -267,7 +272,7 @@ fn stress_a(ctx: &mut Ctx, st: &mut AStats) {
 			for _ in 0..spin * spin {
 				std::hint::spin_loop();
 			}
-			if reads.len() > 40_000_000 {
+			if reads.len() > 6_000_000 {
 				break;
 			}
 		}
